@@ -602,9 +602,103 @@ Proof.
     + eapply cnt_rel_conv; [exact Hc0 | lia].
 Qed.
 
-(* ---- InsertObjectAt with a position outside 1 .. NumObjects + 1 ------------------------------------------------------------------ *)
-Lemma c_insert_out c l i v k :
-  cont_ok c l -> (i =? 0) || (len l + 1 <? i) = true -> c_insert c i v k = (c, k).
+(* ---- InsertObjectAt ------------------------------------------------------------------------------------------------------------------ *)
+Lemma rep_insert a' l ai v :
+  ai <= len l ->
+  (forall j, j < ai -> get a' j = CLive (nth (N.to_nat j) l 0%Z)) ->
+  get a' ai = CLive v ->
+  (forall j, ai < j <= len l -> get a' j = CLive (nth (N.to_nat (j - 1)) l 0%Z)) ->
+  rep a' (insert_nth (N.to_nat ai) v l).
 Proof.
-  intros (Hn & _) H. unfold c_insert. rewrite Hn. now rewrite H.
+  intros Hai Hlo Hat Hhi j Hj. unfold len in *. rewrite insert_nth_length in Hj by lia.
+  rewrite nth_insert_nth by lia.
+  destruct (Nat.ltb_spec (N.to_nat j) (N.to_nat ai)).
+  - apply Hlo. lia.
+  - destruct (Nat.eqb_spec (N.to_nat j) (N.to_nat ai)).
+    + replace j with ai by lia. exact Hat.
+    + rewrite Hhi by lia. f_equal. f_equal. lia.
+Qed.
+
+Lemma c_insert_ok c l i v k c' k' :
+  cont_ok c l -> c_insert c i v k = (c', k') ->
+  if (i =? 0) || (len l + 1 <? i)
+  then c' = c /\ k' = k
+  else cont_ok c' (insert_nth (N.to_nat (i - 1)) v l) /\ cnt_rel k k' 1.
+Proof.
+  intros Hok H. pose proof Hok as (Hn & Hm & Ho & Hr). unfold c_insert in H. rewrite Hn in H.
+  destruct ((i =? 0) || (len l + 1 <? i)) eqn:Eb.
+  - inversion H; subst. split; reflexivity.
+  - apply orb_false_iff in Eb. destruct Eb as [Eb1 Eb2].
+    apply N.eqb_neq in Eb1. apply N.ltb_ge in Eb2.
+    assert (Hlen : len (insert_nth (N.to_nat (i - 1)) v l) = len l + 1).
+    { unfold len in *. rewrite insert_nth_length by lia. lia. }
+    destruct (N.ltb_spec (maxo c) (len l + 1)) as [Hgrow|Hfit].
+    + destruct (objlist c) as [temp|] eqn:E.
+      * (* reallocation *)
+        rewrite (blk_of_some _ _ E) in Hr.
+        destruct (iter_up move_destroy_step (N.to_nat (i - 1)) 0 (temp, fresh, k)) as [[t1 d1] k1] eqn:L1.
+        pose proof L1 as L1'.
+        apply (move_destroy_range (fun j => nth (N.to_nat j) l 0%Z)) in L1;
+          [|intros j Hj; apply Hr; lia].
+        destruct L1 as [Hg1 Hc1].
+        (* the source cells from i-1 on are untouched by the first loop *)
+        assert (Ht1 : forall j, i - 1 <= j < len l -> get t1 j = CLive (nth (N.to_nat j) l 0%Z)).
+        { intros j Hj. rewrite (move_destroy_src_frame _ _ _ _ _ _ _ _ L1') by lia. apply Hr. lia. }
+        unfold construct in H. cbv beta iota in H.
+        match type of H with context [iter_up (move_destroy_off_step 1) ?n0 ?i0 ?s0] =>
+          destruct (iter_up (move_destroy_off_step 1) n0 i0 s0) as [[t3 d3] k3] eqn:L2 end.
+        apply (move_destroy_off_range (fun j => nth (N.to_nat j) l 0%Z)) in L2;
+          [|intros j Hj; apply Ht1; lia].
+        destruct L2 as [Hg2 Hc2]. inversion H; subst; clear H. split.
+        -- apply mk_ok; try lia.
+           apply rep_insert; [lia | | |].
+           ++ intros j Hj. rewrite Hg2. in_range; try lia. rewrite gso by lia. rewrite Hg1.
+              in_range; try lia. reflexivity.
+           ++ rewrite Hg2. in_range; try lia; apply gss.
+           ++ intros j Hj. rewrite Hg2. in_range; try lia. reflexivity.
+        -- destruct Hc1 as [A1 B1]. destruct Hc2 as [A2 B2]. cbn [inc_live live bad] in *.
+           split; [lia | congruence].
+      * (* no storage yet *)
+        destruct (cont_ok_none _ _ Hok E) as (H0 & H1 & H2).
+        replace (N.to_nat (i - 1)) with 0%nat in * by lia. cbn [iter_up] in H.
+        unfold construct in H. inversion H; subst; clear H.
+        replace (i - 1) with 0 by lia. rewrite (len0_nil _ H0). cbn. split.
+        -- apply mk_ok; try (cbn; lia). intros j Hj. cbn in Hj.
+           replace j with 0 by lia. rewrite gss. reflexivity.
+        -- split; cbn [inc_live live bad]; [lia | reflexivity].
+    + (* in place *)
+      destruct (cont_ok_some _ _ Hok) as (a0 & E & Hr0); [lia|].
+      rewrite (blk_of_some _ _ E) in H.
+      replace (len l + 1 - 1) with (len l) in H by lia.
+      destruct (N.eqb_spec (i - 1) (len l)) as [Hlast|Hmid].
+      * unfold construct in H. inversion H; subst; clear H.
+        unfold upd_blk; cbn [objlist num maxo]. rewrite E. split.
+        -- apply mk_ok; try lia.
+           apply rep_insert; [lia | | |].
+           ++ intros j Hj. rewrite gso by lia. apply Hr0. lia.
+           ++ rewrite Hlast. apply gss.
+           ++ intros j Hj. lia.
+        -- split; cbn [inc_live live bad]; [lia | reflexivity].
+      * rewrite (take_live _ _ _ _ (Hr0 (len l - 1) ltac:(lia))) in H.
+        unfold construct in H.
+        cbv beta iota in H.
+        match type of H with context [iter_down shift_up_step ?n0 ?i0 ?s0] =>
+          destruct (iter_down shift_up_step n0 i0 s0) as [a2 k2] eqn:L end.
+        apply (shift_up_range (fun j => nth (N.to_nat j) l 0%Z)) with (x := movedv) in L.
+        -- destruct L as (Hg & (y & Hy) & Hout & Hc).
+           replace (len l - 1 - N.of_nat (N.to_nat (len l - 1 - (i - 1)))) with (i - 1) in * by lia.
+           rewrite (assign_live _ _ _ _ _ Hy) in H. inversion H; subst; clear H.
+           unfold upd_blk; cbn [objlist num maxo]. rewrite E. split.
+           ++ apply mk_ok; try lia.
+              apply rep_insert; [lia | | |].
+              ** intros j Hj. rewrite gso by lia. rewrite Hout by lia. rewrite !gso by lia. apply Hr0. lia.
+              ** apply gss.
+              ** intros j Hj. rewrite gso by lia.
+                 destruct (N.eq_dec j (len l)) as [->|Hne].
+                 --- rewrite Hout by lia. apply gss.
+                 --- apply Hg. lia.
+           ++ destruct Hc as [A B]. cbn [inc_live live bad] in *. split; [lia | exact B].
+        -- lia.
+        -- rewrite gso by lia. apply gss.
+        -- intros j Hj. rewrite !gso by lia. apply Hr0. lia.
 Qed.
